@@ -52,18 +52,18 @@ def a64_names(pa: int, pb: int, na: str, nb: str, ua: bool, ub: bool) -> bool:
 
 def a64_aliases(pa: int, pb: int, ia: int, ib: int) -> bool:
     """
-    pre: 0 <= pa < 10 and 0 <= pb < 10 and 0 <= ia < 5 and 0 <= ib < 5
+    pre: 0 <= pa < 10 and 0 <= pb < 10 and 0 <= ia < 7 and 0 <= ib < 7
     post: _
     """
     if skip(locals()):
         return True
-    names = ["sp", "zr", "0", "30", "31"]
+    names = ["sp", "zr", "0", "30", "31", "SP", "ZR"]     # [SP, #8] keeps the spelling of the source
     ca = A64_PREFIXES[pick(pa, 10)]
     cb = A64_PREFIXES[pick(pb, 10)]
-    na, nb = names[pick(ia, 5)], names[pick(ib, 5)]
+    na, nb = names[pick(ia, 7)], names[pick(ib, 7)]
     ra = RegisterOperand(prefix=ca, name=na)
     rb = RegisterOperand(prefix=cb, name=nb)
-    expect = na == nb and _a64_class(ca) == _a64_class(cb)
+    expect = na.lower() == nb.lower() and _a64_class(ca) == _a64_class(cb)
     ok = bool(PA.is_reg_dependend_of(ra, rb)) == expect and bool(PA.is_reg_dependend_of(rb, ra)) == expect
     return verdict(ok, nontrivial=expect, sample=lambda: [ca + na, cb + nb, expect])
 
@@ -146,7 +146,7 @@ _FUN = ["osaca.parser.parser_x86att.ParserX86ATT.is_reg_dependend_of", "is_basic
 CELLS = {
     "a64_names": {"fn": a64_names, "bound": "prefix pair over wxbhsdqvzp x case; names = ALL strings of length <= 2 (symbolic)",
                   "budget": {"quick": 150, "thorough": 600}, "shards": 5},
-    "a64_aliases": {"fn": a64_aliases, "bound": "names sp/zr/0/30/31 x all prefix pairs", "budget": {"quick": 120, "thorough": 300}},
+    "a64_aliases": {"fn": a64_aliases, "bound": "names sp/zr/0/30/31/SP/ZR x all prefix pairs (case-insensitive aliases)", "budget": {"quick": 120, "thorough": 300}},
     "x86_pairs": {"fn": x86_pairs, "tiers": ("quick",), "bound": "95 names (16 GPR families all widths; vector numbers 0,1,9,10,15,16,31; mm/k 0,1,7) x 95 x case bits",
                   "budget": {"quick": 170}, "shards": 12},
     "x86_pairs_full": {"fn": x86_pairs_full, "tiers": ("thorough",), "bound": "all 180 names x 180 x 4 case combinations", "budget": {"thorough": 900}, "shards": 16},
